@@ -67,9 +67,10 @@ Arguments Raise {A} e.
 Definition bind {A B : Type} (o : outcome A) (f : A -> outcome B) : outcome B :=
   match o with Ok a => f a | Raise e => Raise e end.
 
-(* read n bits; a missing bit is an overrun *)
+(* read n bits; a missing bit is an overrun (only the first n bits are
+   inspected, so that evaluation stays linear in the message length) *)
 Definition read_word (n : nat) (bs : bits) : outcome (Z * bits) :=
-  if (length bs <? n)%nat then Raise Overrun else Ok (Z_of_bits (firstn n bs), skipn n bs).
+  if (length (firstn n bs) <? n)%nat then Raise Overrun else Ok (Z_of_bits (firstn n bs), skipn n bs).
 
 Definition dec_rep {V : Type} (f : bits -> outcome (V * bits))
   : nat -> bits -> outcome (list V * bits) :=
